@@ -1,5 +1,7 @@
 import PilotaModel.Thrift.Unsafe
 import PilotaModel.Thrift.Async
+import PilotaModel.Thrift.Spec
+import PilotaModel.Thrift.Msg
 import Driver.Thrift
 /-
   Line-protocol verbs of track thrift3: unchecked codec (C11), async decoding (C12),
@@ -108,7 +110,7 @@ def eventsOf : Sexp → Option Stream
   | _ => none
 
 inductive AStep where
-  | read (t : TType) | skip (t : TType) (d : Nat) | msg | sb | se | fb | fe
+  | read (t : TType) | skip (t : TType) (d : Nat) | msg | sb | se | fb | fe | lb | setb | mb
 
 def astepOf : Sexp → Option AStep
   | .list [.atom "read", t] => do let t ← t.asAtom >>= TType.ofName; pure (.read t)
@@ -119,6 +121,9 @@ def astepOf : Sexp → Option AStep
   | .list [.atom "se"] => some .se
   | .list [.atom "fb"] => some .fb
   | .list [.atom "fe"] => some .fe
+  | .list [.atom "lb"] => some .lb
+  | .list [.atom "setb"] => some .setb
+  | .list [.atom "mb"] => some .mb
   | _ => none
 
 open Pilota.Thrift.Async in
@@ -143,6 +148,15 @@ def astepProg (p : AProto) (n : Nat) (cr : Compact.CR) : AStep → Prog (String 
     | .bin e => (ABin.readFieldBegin e).bind fun (t, id) => .ret (s!"(field {t.name} {id})", cr)
     | .cmp => (ACmp.readFieldBegin cr).bind fun ((t, id), cr) => .ret (s!"(field {t.name} {id})", cr)
   | .fe => .ret ("fe", cr)
+  | .lb => match p with
+    | .bin e => (ABin.readListBegin e).bind fun (t, n) => .ret (s!"(list {t.name} {n})", cr)
+    | .cmp => ACmp.readCollBegin.bind fun (t, n) => .ret (s!"(list {t.name} {n})", cr)
+  | .setb => match p with
+    | .bin e => (ABin.readListBegin e).bind fun (t, n) => .ret (s!"(set {t.name} {n})", cr)
+    | .cmp => ACmp.readCollBegin.bind fun (t, n) => .ret (s!"(set {t.name} {n})", cr)
+  | .mb => match p with
+    | .bin e => (ABin.readMapBegin e).bind fun (k, v, n) => .ret (s!"(map {k.name} {v.name} {n})", cr)
+    | .cmp => ACmp.readMapBegin.bind fun (k, v, n) => .ret (s!"(map {k.name} {v.name} {n})", cr)
 
 open Pilota.Thrift.Async in
 def arun (p : AProto) (total : Nat) : List AStep → Stream → Compact.CR → List String → String
@@ -160,12 +174,137 @@ def av (items : List Sexp) : Option String := do
   let steps ← (items.drop 3).mapM astepOf
   pure (arun p (flat s).length steps s {} [])
 
+/-! ### C03 -/
+
+inductive SProto where | bin (e : Endian) | cmp
+  deriving DecidableEq
+
+def sprotoOf : String → Option SProto
+  | "bin" => some (.bin .be) | "le" => some (.bin .le) | "cmp" => some .cmp | _ => none
+
+/-- one step on the in-memory protocol object (compact: over its state); item text and the rest. -/
+def sstep (p : SProto) (cr : Compact.CR) (bs : Bytes) : AStep → Out (String × Compact.CR × Bytes)
+  | .read t => match p with
+    | .bin e => match Binary.read e t bs with
+      | .ok (v, r) => .ok (v.toSexp, cr, r) | .err k => .err k | .panic m => .panic m | .fuel => .fuel
+    | .cmp => match Compact.read t cr bs with
+      | .ok (v, cr, r) => .ok (v.toSexp, cr, r) | .err k => .err k | .panic m => .panic m | .fuel => .fuel
+  | .skip _ _ => .err .other            -- the in-memory skippers are C07's
+  | .msg => match p with
+    | .bin e => match Msg.readBeginBin e bs with
+      | .ok ((nm, mt, sq), r) => .ok (s!"(msg {hexOrDash nm} {mt} {sq})", cr, r) | .err k => .err k | .panic m => .panic m | .fuel => .fuel
+    | .cmp => match Msg.readBeginCmp bs with
+      | .ok ((nm, mt, sq), r) => .ok (s!"(msg {hexOrDash nm} {mt} {sq})", cr, r) | .err k => .err k | .panic m => .panic m | .fuel => .fuel
+  | .sb => match p with
+    | .bin _ => .ok ("sb", cr, bs)
+    | .cmp => .ok ("sb", Compact.readStructBegin cr, bs)
+  | .se => match p with
+    | .bin _ => .ok ("se", cr, bs)
+    | .cmp => match Compact.readStructEnd cr with
+      | .ok cr => .ok ("se", cr, bs) | .err k => .err k | .panic m => .panic m | .fuel => .fuel
+  | .fb => match p with
+    | .bin e => match Binary.readFieldBegin e bs with
+      | .ok ((t, id), r) => .ok (s!"(field {t.name} {id})", cr, r) | .err k => .err k | .panic m => .panic m | .fuel => .fuel
+    | .cmp => match Compact.readFieldBegin cr bs with
+      | .ok ((t, id), cr, r) => .ok (s!"(field {t.name} {id})", cr, r) | .err k => .err k | .panic m => .panic m | .fuel => .fuel
+  | .fe => .ok ("fe", cr, bs)
+  | .lb => match p with
+    | .bin e => match Binary.readListBegin e bs with
+      | .ok ((t, n), r) => .ok (s!"(list {t.name} {n})", cr, r) | .err k => .err k | .panic m => .panic m | .fuel => .fuel
+    | .cmp => match Compact.readCollBegin bs with
+      | .ok ((t, n), r) => .ok (s!"(list {t.name} {n})", cr, r) | .err k => .err k | .panic m => .panic m | .fuel => .fuel
+  | .setb => match p with
+    | .bin e => match Binary.readListBegin e bs with
+      | .ok ((t, n), r) => .ok (s!"(set {t.name} {n})", cr, r) | .err k => .err k | .panic m => .panic m | .fuel => .fuel
+    | .cmp => match Compact.readCollBegin bs with
+      | .ok ((t, n), r) => .ok (s!"(set {t.name} {n})", cr, r) | .err k => .err k | .panic m => .panic m | .fuel => .fuel
+  | .mb => match p with
+    | .bin e => match Binary.readMapBegin e bs with
+      | .ok ((k, v, n), r) => .ok (s!"(map {k.name} {v.name} {n})", cr, r) | .err k => .err k | .panic m => .panic m | .fuel => .fuel
+    | .cmp => match Compact.readMapBegin bs with
+      | .ok ((k, v, n), r) => .ok (s!"(map {k.name} {v.name} {n})", cr, r) | .err k => .err k | .panic m => .panic m | .fuel => .fuel
+
+def srun (p : SProto) : List AStep → Compact.CR → Bytes → List String → String
+  | [], _, bs, acc => s!"ok {if acc.isEmpty then "-" else " ".intercalate acc.reverse} rem={bs.length}"
+  | st :: rest, cr, bs, acc =>
+    match sstep p cr bs st with
+    | .ok (item, cr', r) => srun p rest cr' r (item :: acc)
+    | o => s!"{o.cls} after={acc.length}"
+
+def specEncode (p : SProto) (v : TVal) : Bytes :=
+  match p with
+  | .bin _ => SpecBin.encode v
+  | .cmp => SpecCmp.encode 14 v
+
+def specCheck (p : SProto) (v : TVal) (bs : Bytes) : Bool :=
+  match p with
+  | .bin _ => SpecBin.check v bs
+  | .cmp => SpecCmp.check v bs
+
+/-- the reference decoder recovers `v` (compact: up to the types of empty maps) from exactly `bs`. -/
+def specDecodes (p : SProto) (v : TVal) (bs : Bytes) : Bool :=
+  match p with
+  | .bin _ => match SpecBin.decodeTop v.ttype bs with
+    | .ok (v', r) => v'.toSexp == v.toSexp && r.isEmpty
+    | _ => false
+  | .cmp => match SpecCmp.decodeTop v.ttype bs with
+    | .ok (v', r) => v'.toSexp == (Compact.norm v).toSexp && r.isEmpty
+    | _ => false
+
+def c03 (verb : String) (items : List Sexp) : Option String := do
+  let p ← items[1]? >>= Sexp.asAtom >>= sprotoOf
+  match verb with
+  | "se" =>
+    let v ← items[2]? >>= TVal.ofSexp
+    if p == .bin .le then
+      pure s!"ok {hexOrDash (Binary.enc .le v)}"             -- not an Apache protocol: pilota's own model answers
+    else
+      let bs := specEncode p v
+      if specCheck p v bs && specDecodes p v bs then pure s!"ok {hexOrDash bs}" else pure "spec-inconsistent"
+  | "sr" =>
+    let v ← items[2]? >>= TVal.ofSexp
+    let bs ← items[3]? >>= Sexp.asHex
+    if !specCheck p v bs then pure "notspec"
+    else if !specDecodes p v bs then pure "spec-decoder-disagrees"
+    else pure s!"ok {(if p == .cmp then Compact.norm v else v).toSexp} rem=0"
+  | "s" =>
+    let bs ← items[2]? >>= Sexp.asHex
+    let steps ← (items.drop 3).mapM astepOf
+    pure (srun p steps {} bs [])
+  | "sm" =>
+    let name ← items[2]? >>= Sexp.asHex
+    let mt ← items[3]? >>= Sexp.asNat
+    let seq ← items[4]? >>= Sexp.asInt
+    match p with
+    | .bin .be => pure s!"ok {hexOrDash (SpecBin.message name mt seq)}"
+    | .bin .le => pure s!"ok {hexOrDash (Binary.wOp .le (.msgBegin name mt seq))}"
+    | .cmp => pure s!"ok {hexOrDash (SpecCmp.message name mt seq)}"
+  | "axw" =>
+    let msg ← items[2]? >>= Sexp.asHex
+    let kind ← items[3]? >>= Sexp.asInt
+    match p with
+    | .bin e => pure s!"ok {hexOrDash (Binary.run e (Msg.appOps msg kind))}"
+    | .cmp => match Compact.run {} (Msg.appOps msg kind) with
+      | .ok (_, bs) => pure s!"ok {hexOrDash bs}"
+      | o => pure o.cls
+  | "ax" =>
+    let bs ← items[2]? >>= Sexp.asHex
+    match p with
+    | .bin e => match Msg.appDecodeBin e (3 * bs.length + 3) (Msg.defaultMsg, 0) bs with
+      | .ok ((m, k), r) => pure s!"ok {hexOrDash m} {k} rem={r.length}"
+      | o => pure o.cls
+    | .cmp => match Msg.appDecodeCmp (3 * bs.length + 3) {} bs with
+      | .ok ((m, k), _, r) => pure s!"ok {hexOrDash m} {k} rem={r.length}"
+      | o => pure o.cls
+  | _ => none
+
 def answer (items : List Sexp) : Option String := do
   let verb ← items.head? >>= Sexp.asAtom
   match verb with
   | "uw" => uw items
   | "ur" => ur items
   | "a" => av items
+  | "se" | "sr" | "s" | "sm" | "ax" | "axw" => c03 verb items
   | _ => none
 
 end Driver.Thrift3
